@@ -39,6 +39,8 @@ CHECKS = {
          "rule classification is an uninterpreted function of the trimmed line; file-backed lists (os.File short reads) are NOT modelled or claimed; engine; z3"),
  "C20": ("findBodyInjectionIndex/isMatchFound on bodies of 0..9/13 symbolic bytes and on 16 KiB-boundary bodies (filler plus 9 symbolic bytes, marker straddling the window edge): index == first in-window marker (ASCII case-insensitive) else -1; the splice arithmetic keeps every byte in order",
          "filterHTML I/O, Latin-1 round trip, headers, Content-Length and the template are NOT claimed; engine; z3"),
+ "C14": ("two goroutines x one operation on the four protected objects (rule cache cold/warm, file-backed list handle and buffer, lazily compiled pattern cold/warm, pooled request): the operation is executed symbolically recording lock events and shared reads/writes per path, and for every pair of traces the solver decides whether two conflicting accesses can be unordered by happens-before in some schedule (clocks are solver variables); a potential race is replayed under go test -race",
+         "bounded to 2 goroutines x 1 operation; race freedom and exclusive use only (answer equality under concurrency not decided); mutex and pool contracts assumed; engine; z3"),
  "C16": ("unbounded in the fields the function reads (64-bit option word, 32-bit mask, exception flag fully symbolic under the parser's representation invariant); counterexamples replayed from rule text through the real parser",
          "InvRule on option words (validated natively on the repo's own rule corpus); go/ssa lowering; engine; z3"),
 }
